@@ -283,7 +283,7 @@ pub fn run(ctx: &mut Ctx) {
         "a call still blocked 10 s after it was issued, with the server idle or stopped, counts as an indefinite wait".into(),
         "the server closes the connection after any request error (what VhostUserDaemon does); a server that keeps a dead request's connection open is not modelled".into(),
     ];
-    let n = ctx.tier.pick(15_000u32, 150_000u32);
+    let n = ctx.tier.pick(15_000u32, 1_500_000u32);
     let neg = neg_strategy().prop_map(|mut n| {
         // the gates must be open: all features offered and acknowledged, REPLY_ACK varies with ack_pf
         n.dev_features = spec::VIRTIO_F_PROTOCOL_FEATURES | 0x1_2000_0003;
@@ -327,7 +327,7 @@ pub fn run(ctx: &mut Ctx) {
             }
         }
     }
-    let reps = ctx.tier.pick(1usize, 20usize);
+    let reps = ctx.tier.pick(1usize, 100usize);
     let dc: Vec<DaemonCase> = (0..reps).flat_map(|_| dc.clone()).collect();
     ctx.enumerate("daemon_device_outcomes", dc, |ctx, c| run_daemon_case(ctx, c));
 }
